@@ -152,11 +152,21 @@ def check_props(pid):
     with open(src) as f:
         text = f.read()
     names = [m.group(2) for m in THM_RE.finditer(text)]
-    forbidden = re.findall(r"\b(Admitted|admit|Axiom|Parameter|Conjecture|Abort)\b", text)
+    code = re.sub(r"\(\*.*?\*\)", " ", text, flags=re.S)          # comments do not count
+    forbidden = re.findall(r"\b(Admitted|admit|Axiom|Axioms|Parameter|Parameters|Conjecture|Abort|Admit)\b", code)
+    # the whole development must be free of escape hatches
+    for root, _, files in os.walk(COQ):
+        for fn in files:
+            if fn.endswith(".v"):
+                with open(os.path.join(root, fn)) as f:
+                    body = re.sub(r"\(\*.*?\*\)", " ", f.read(), flags=re.S)
+                bad = re.findall(r"\b(Admitted|admit|Axiom|Axioms|Parameter|Parameters|Conjecture|Admit Obligations|bypass_check|Unset Guard Checking|Unset Positivity Checking|Unset Universe Checking)\b", body)
+                if bad:
+                    forbidden += ["%s:%s" % (fn, b) for b in bad]
     with Lock("build"):
         rc, out, wall = coqc_file(os.path.join("Props", pid + ".v"))
     closed = out.count("Closed under the global context")
-    axioms = sorted(set(re.findall(r"^([A-Za-z0-9_.']+)\s*:", out, re.M))) if "Axioms:" in out else []
+    axioms = sorted(set(re.findall(r"^([A-Za-z0-9_.']+)\s*$\n\s+:", out, re.M))) if "Axioms:" in out else []
     ok = (rc == 0) and not forbidden
     failing = None
     if rc != 0:
